@@ -555,16 +555,47 @@ func (m *Miner) Build(parent *Node, o BlockOpts) (b *Block, ok bool) {
 		var forged *Tx
 		if n == violAt && o.Viol == "offcurve-key" && t.Out[0].Value > 2000 {
 			// this transaction pays to a key that is not a point of the curve, the next one "spends" that output
-			t.Out[0].Pk = OffCurveScript()
+			lock := OffCurveScript()
+			ki := m.R.Intn(m.W.NKeys())
+			if m.R.Chance(0.5) {
+				// x of a real key with a y that does not belong to it: the script is still not spendable, but a store
+				// that keeps pay-to-pubkey scripts as "x and the parity of y" hands back the script of the real key
+				lock = m.W.WrongYScript(ki)
+			}
+			t.Out[0].Pk = lock
 			var spent []Coin
 			for _, c := range ins {
 				spent = append(spent, c.Coin)
 			}
 			m.SignAll(t, spent, -1, COk)
-			forged = &Tx{Ver: 1, In: []TxIn{{Prev: OutPoint{t.ID(), 0}, Seq: 0xffffffff}}, Out: []TxOut{{t.Out[0].Value - 1000, m.W.Script(KP2PKH, m.R.Intn(m.W.NKeys()))}}}
-			forged.In[0].ScriptSig = push(ForgeOffCurveSig(LegacyDigest(forged, 0, OffCurveScript(), SigAll), SigAll))
-			forged.Valid = []bool{false}
-			violDone = true
+			prev, pval := OutPoint{t.ID(), 0}, t.Out[0].Value
+			// an output like this that an earlier block has confirmed (it has been through the node's store) is
+			// spent instead, if there is one; then this block only adds another such output
+			for ki2 := 0; ki2 < m.W.NKeys(); ki2++ {
+				for _, cand := range [][]byte{m.W.WrongYScript(ki2)} {
+					for op, c := range view {
+						if bytes.Equal(c.Pk, cand) && c.Value > 3000 {
+							prev, pval, lock, ki = op, c.Value, cand, ki2
+						}
+					}
+				}
+			}
+			if prev.Hash != t.ID() {
+				delete(view, prev)
+			}
+			forged = &Tx{Ver: 1, In: []TxIn{{Prev: prev, Seq: 0xffffffff}}, Out: []TxOut{{pval - 1000, m.W.Script(KP2PKH, m.R.Intn(m.W.NKeys()))}}}
+			if prev.Hash == t.ID() && lock[1] == 4 && lock[65] != 1 && m.R.Chance(0.5) {
+				forged = nil // only create the output this time: the block stays valid, a later block will try to spend it
+				violDone = false
+			} else if lock[1] == 4 && lock[65] == 1 && lock[2] == 0 && lock[33] == 0 {
+				forged.In[0].ScriptSig = push(ForgeOffCurveSig(LegacyDigest(forged, 0, lock, SigAll), SigAll))
+			} else {
+				forged.In[0].ScriptSig = push(m.W.SignAsRealKey(ki, forged, 0))
+			}
+			if forged != nil {
+				forged.Valid = []bool{false}
+				violDone = true
+			}
 		}
 		if n == violAt && o.Viol == "value-wrap" {
 			for len(t.Out) < 2 {
